@@ -812,3 +812,118 @@ func BracketProtoRule(w *World, r *Result, rule string) {
 		}
 	}
 }
+
+// StaleListRule: inside a loop of a driver function, a list that is handed on per iteration
+// (stored into a structure built in the loop, or passed to a call in the loop) must be
+// created in that iteration. A list declared outside the loop that some path through the
+// body leaves untouched still holds the previous iteration's elements: the second stage of
+// a pipeline inherits the arguments of the first.
+func StaleListRule(w *World, r *Result, rule string) {
+	n := 0
+	for _, fn := range w.Funcs("transpiler") {
+		if len(fn.Blocks) == 0 {
+			continue
+		}
+		loops := naturalLoops(fn)
+		headers := map[*ssa.BasicBlock]bool{}
+		for _, h := range loops {
+			headers[h] = true
+		}
+		perFn := 0
+		for hdr := range headers {
+			body := loopBody(hdr)
+			for _, ins := range hdr.Instrs {
+				ph, ok := ins.(*ssa.Phi)
+				if !ok {
+					continue
+				}
+				if _, isSlice := ph.Type().Underlying().(*types.Slice); !isSlice {
+					continue
+				}
+				// does some back-edge value resolve to the phi itself?
+				carries := false
+				var resolves func(v ssa.Value, seen map[ssa.Value]bool) bool
+				resolves = func(v ssa.Value, seen map[ssa.Value]bool) bool {
+					if v == ph {
+						return true
+					}
+					if seen[v] {
+						return false
+					}
+					seen[v] = true
+					if p2, ok := v.(*ssa.Phi); ok && body[p2.Block()] {
+						for _, e := range p2.Edges {
+							if resolves(e, seen) {
+								return true
+							}
+						}
+					}
+					return false
+				}
+				for i, e := range ph.Edges {
+					if body[hdr.Preds[i]] && hdr.Dominates(hdr.Preds[i]) && resolves(e, map[ssa.Value]bool{}) {
+						carries = true
+					}
+				}
+				if !carries {
+					continue
+				}
+				// values derived from the phi inside the loop (phis, append results)
+				derived := map[ssa.Value]bool{ph: true}
+				for changed := true; changed; {
+					changed = false
+					for blk := range body {
+						for _, i2 := range blk.Instrs {
+							switch x := i2.(type) {
+							case *ssa.Phi:
+								if derived[x] {
+									continue
+								}
+								for _, e := range x.Edges {
+									if derived[e] {
+										derived[x] = true
+										changed = true
+									}
+								}
+							case *ssa.Call:
+								if bi, ok := x.Call.Value.(*ssa.Builtin); ok && bi.Name() == "append" && derived[x.Call.Args[0]] && !derived[x] {
+									derived[x] = true
+									changed = true
+								}
+							}
+						}
+					}
+				}
+				consumed := ""
+				for blk := range body {
+					for _, i2 := range blk.Instrs {
+						switch x := i2.(type) {
+						case *ssa.Store:
+							if derived[x.Val] {
+								consumed = "stored into a value built inside the loop at " + w.Pos(x.Pos())
+							}
+						case *ssa.Call:
+							if _, isBuiltin := x.Call.Value.(*ssa.Builtin); isBuiltin {
+								continue
+							}
+							for _, a := range x.Call.Args {
+								if derived[a] {
+									consumed = "passed to a call inside the loop at " + w.Pos(x.Pos())
+								}
+							}
+						}
+					}
+				}
+				if consumed == "" {
+					continue
+				}
+				n++
+				perFn++
+				r.Bad(rule, fmt.Sprintf("stale:%s#%d", FuncName(fn), perFn), w.Pos(hdr.Instrs[0].Pos()), "a list declared outside the loop is "+consumed+" although a path through the loop body does not create it anew: an iteration without elements of its own hands on the elements of the previous one")
+			}
+		}
+	}
+	if n == 0 {
+		r.Ok(rule, "stale:none", "-", "no list that is handed on per iteration survives from one iteration of a driver loop to the next")
+	}
+}
